@@ -86,7 +86,7 @@ def load_known_findings(pid):
     if os.path.exists(p):
         for line in open(p):
             line = line.strip()
-            if line and not line.startswith("#"):
+            if line and not line.startswith("#") and not line.startswith("fixed:"):
                 d = json.loads(line)
                 if d.get("property") == pid:
                     out.append(d)
